@@ -456,3 +456,95 @@ def run_kill_fanout_create(shards, kill_at, tid=1):
                 'points': info.get('n', 0), 'kinds': [], 'ev': [{'ev': 'killed', 'k': 1 if os.WIFSIGNALED(status) else 0}, obs]}
     finally:
         envctl.rm(d)
+
+
+# ------------------------------------------------------------------ ShardCreate.tla behaviours on the real FanoutCache
+SC_E_TOTAL = 2 ** 25           # the explicit total size limit of an "E" open
+
+
+class _StepKiller(interpose.Listener):
+    """Kills the process before the event that performs the named step of the named shard."""
+
+    def __init__(self, shard_dir, target):
+        self.dir, self.target = shard_dir, target
+
+    def _die(self):
+        os.kill(os.getpid(), signal.SIGKILL)
+
+    def file_before(self, kind, path):
+        if self.target == 'mkdir' and kind == 'mkdir' and os.path.abspath(str(path)) == self.dir:
+            self._die()
+
+    def connect_before(self, path):
+        if self.target == 'sql' and os.path.dirname(os.path.abspath(str(path))) == self.dir:
+            self._die()          # before the connection that creates the database file
+
+    def sql_before(self, conn, sql, params):
+        path = getattr(conn, '_verif_path', '') or ''
+        if os.path.dirname(os.path.abspath(path)) != self.dir:
+            return
+        if self.target == 'store' and sql.lstrip().upper().startswith('INSERT OR REPLACE INTO SETTINGS') and params and params[0] == 'size_limit':
+            self._die()
+
+
+def _shard_state(d, n, e_total):
+    import sqlite3 as _s
+    phase, stored = [], []
+    for i in range(n):
+        sd = os.path.join(d, '%03d' % i)
+        db = os.path.join(sd, 'cache.db')
+        if not os.path.isdir(sd):
+            phase.append('none'); stored.append('none'); continue
+        if not os.path.exists(db):
+            phase.append('dir'); stored.append('none'); continue
+        con = interpose.real_connect(db, timeout=5)
+        try:
+            rows = con.execute("SELECT value FROM Settings WHERE key = 'size_limit'").fetchall()
+        except _s.OperationalError:
+            rows = []
+        finally:
+            con.close()
+        if not rows:
+            phase.append('db'); stored.append('none'); continue
+        v = rows[0][0]
+        phase.append('set')
+        stored.append('Dshare' if abs(v * n - 2 ** 30) < 1 else 'Eshare' if abs(v * n - e_total) < 1 else
+                      'full' if abs(v - 2 ** 30) < 1 else 'other:%r' % (v,))
+    return phase, stored
+
+
+def run_shard_plan(plan, n, tid=1):
+    d = envctl.scratch('scp')
+    ev = []
+    try:
+        for i, st in enumerate(plan):
+            s, sub = st['s'], st['sub']
+            target = None
+            if st['end'] == 'kill' and s <= n:
+                sd = os.path.join(d, '%03d' % (s - 1))
+                if sub in ('decide', 'mkdir') and not os.path.isdir(sd):
+                    target = 'mkdir'
+                elif sub in ('decide', 'mkdir', 'connect') and not os.path.exists(os.path.join(sd, 'cache.db')):
+                    target = 'sql'
+                else:
+                    target = 'store'
+            pid = os.fork()
+            if pid == 0:
+                try:
+                    import diskcache
+                    envctl.SeededUrandom(5).install()
+                    interpose.install(_StepKiller(os.path.abspath(sd), target) if target else None, d)
+                    kw = {'size_limit': SC_E_TOTAL} if st['mode'] == 'E' else {}
+                    diskcache.FanoutCache(d, shards=n, **kw)
+                finally:
+                    os._exit(0)
+            _, status = os.waitpid(pid, 0)
+            killed = os.WIFSIGNALED(status)
+            phase, stored = _shard_state(d, n, SC_E_TOTAL)
+            ev.append({'i': i + 1, 'mode': st['mode'], 'end': st['end'], 's': s, 'sub': sub or '-', 'phase': list(st['phase']),
+                       'stored': list(st['stored']), 'obs_phase': phase, 'obs_stored': stored,
+                       'ran': 1 if killed == (target is not None) else 0,
+                       'how': 'killed' if killed else 'ran to the end'})
+        return {'id': tid, 'ev': ev}
+    finally:
+        envctl.rm(d)
